@@ -185,7 +185,31 @@ CHECKS['C12'] = dict(
          'or tiny/small (thorough) workloads with a preemption bound, everything else is sampled.',
     technique='schedule-controlled property-based testing (PCT / random schedules via Hypothesis) + bounded-preemption exhaustive DFS')
 
+CHECKS['C08'] = dict(
+    engine='procfault', category='exploration', design='DESIGN.md 3 C08',
+    text='Hypothesis-generated fault scripts (per-id behaviour: equal, different, player/extractor/comparator raises, '
+         'bare status, worker exits, worker hangs, worker answers just after the parent gave up) x in-process/dedicated '
+         'x recycle rate x keep-results, run through the REAL Equalizer with real forked workers; one correctly '
+         'attributed verdict per id in input order, replay and kept results belong to the labelled id, and in-process vs '
+         'dedicated differential for scripts without process faults.',
+    note='Nothing in the repository is patched: behaviours are executed by the user callbacks; the late-answer schedule '
+         'is made deterministic by wrapping os.kill in the harness process. Each process fault costs about 1 s (the '
+         'Equalizer polls at 1 s), hence scenario counts in the hundreds.',
+    technique='Hypothesis-generated fault scripts against real worker processes; attribution oracle + mode differential')
+CHECKS['C13'] = dict(
+    engine='procfault', category='exploration', design='DESIGN.md 3 C13',
+    text='Hypothesis-generated scenarios with hangs and worker deaths at first/middle/last/consecutive/recycle-boundary '
+         'positions x recycle rate x timeout x consumption mode (full, closed early, consumer exception, never started) '
+         'against the REAL Equalizer: bounded response per faulty id and for the whole run, the run continues with a '
+         'fresh worker, tasks per worker pid <= recycle rate (counted from a pipe written by the player), no non-zombie '
+         'child left within 2 s of completion or abandonment.',
+    note='Termination is observed as bounded response (timeout + 5 s per faulty id, 10x nominal for the run), not '
+         'proved. Children are observed through /proc/<pid>/stat.',
+    technique='Hypothesis-generated fault scripts against real worker processes; bounded-response and process-leak oracles')
+
 ENGINES = [
+    ('procfault', 'pbt/procfault.py', 'Equalizer process-fault harness: fault scripts executed by user callbacks, '
+                                      'slow-kill schedule control, task pipe, /proc child observation', ['C08', 'C13']),
     ('detsched', 'pbt/detsched.py', 'deterministic thread scheduler: cooperative primitives, settrace switch points, '
                                     'PCT/random/replay choosers', ['C12']),
     ('hashseed', 'pbt/hashseed.py', 'persistent child interpreters with fixed distinct PYTHONHASHSEED values', ['C06']),
